@@ -8,7 +8,7 @@ import sys
 
 sys.path.insert(0, os.path.dirname(os.path.dirname(os.path.abspath(__file__))))
 from vlib import build, gadata
-from vlib.common import Check, NCPU, Rng, main_guard, pmap, run, sanitizer_key
+from vlib.common import comma_locale, Check, NCPU, Rng, main_guard, pmap, run, sanitizer_key
 
 THRESH = [1 - 10.0 ** (-k) for k in range(1, 17)]   # the encoder's "nines" levels: 0.9, 0.99, ...
 
@@ -182,6 +182,33 @@ def main():
                               {"dataset": r["dataset"], "truth": {k: t[k] for k in ("n", "shape", "layout", "Q", "emin", "emax")}, "detail": m["detail"]})
             if r.get("sample") and len(samples) < 2:
                 samples.append({"dataset": r["dataset"], **r["sample"]})
+        # ---- the same datasets read while the process's C numeric locale has a decimal COMMA (what a GUI application that called
+        #      setlocale(LC_ALL, "") under such a LANG has): the table format is locale-independent, so decoded values, cells and events
+        #      must be the ones of the C locale
+        locdir = comma_locale(os.path.join(root, "locale"))
+        locale_runs = 0
+        if locdir is None:
+            chk.note("localedef not available: the decimal-comma pass was skipped")
+        else:
+            sub = datasets[::3][:12] if quick else datasets[::2]
+            recs_l = drive(chk, "plain", sub, 500 if quick else 5000, env={"VERIF_LOCALE": "xx_XX", "LOCPATH": locdir})
+            base_by = {r["dataset"]: r for r in recs}
+            for r in recs_l:
+                t = by.get(r["dataset"])
+                b = base_by.get(r["dataset"])
+                if t is None or b is None:
+                    continue
+                locale_runs += 1
+                if r.get("locale_switches", 0) <= 0:
+                    chk.inconclusive_("the decimal-comma locale could not be selected in the harness (%s)" % r.get("locale_switches"))
+                    break
+                if r["decoded"] != b["decoded"]:
+                    chk.violation("locale|decoded-tables-differ", "%s: the cumulative tables decoded under a decimal-comma C locale differ from those decoded in the C locale" % r["dataset"],
+                                  {"dataset": r["dataset"]})
+                for m in r["mismatches"]:
+                    chk.violation("locale|" + m["key"], "%s under a decimal-comma C locale (n=%d, shape %s) [%d cases]" % (m["detail"], t["n"], t["shape"], m["count"]),
+                                  {"dataset": r["dataset"], "detail": m["detail"]})
+            chk.require(locale_runs >= (8 if quick else 30), "only %d datasets went through the decimal-comma pass" % locale_runs)
         chk.require(len(recs) == len(datasets), "harness reported %d of %d datasets" % (len(recs), len(datasets)))
         chk.require(stats["maxlevel"] >= 8, "encoded tables never reached a run of 9s beyond level %d" % stats["maxlevel"])
         chk.coverage.update({
@@ -198,6 +225,7 @@ def main():
             "decoded_values_compared": stats["values"],
             "values_encoded_as_exact_one": stats["ones"],
             "deepest_nines_level_seen": stats["maxlevel"],
+            "datasets_also_read_under_a_decimal_comma_locale": locale_runs,
             "pairs_sampled": tot_s,
             "events": tot_e,
         })
